@@ -572,6 +572,14 @@ def r6(ck):
                 df.mentions(st, lambda x: df.is_const(x, "strip", "p"))
             r_ok = df.is_call(rv, "getopts::Matches::opt_present") and df.mentions(rv, lambda x: df.is_const(x, "R", "reverse"))
             ck.require(s_ok and r_ok, "C16-R6", "parsed options reach the entry", "SeriesPatch{strip: %s, reverse: %s}" % (df.show(st, 100), df.show(rv, 100)), f.where(s))
+            # an entry with options but without -p still has the default strip level (1, like an entry without options)
+            dflt = [x[2][-1] for x in df.walk(st) if isinstance(x, tuple) and x and x[0] == "call" and x[1].split("::")[-1] in ("unwrap_or", "map_or") and len(x[2]) >= 2]
+            dflt = [x[2][1] if x[1].split("::")[-1] == "map_or" else x[2][-1] for x in df.walk(st)
+                    if isinstance(x, tuple) and x and x[0] == "call" and x[1].split("::")[-1] in ("unwrap_or", "map_or") and len(x[2]) >= 2]
+            consts = [d_ for d_ in dflt if df.is_const(d_) or (isinstance(d_, tuple) and d_ and d_[0] == "constitem")]
+            if consts:
+                ck.require(all((d_[1] == 1) if df.is_const(d_) else True for d_ in consts), "C16-R6", "default strip level of an entry with other options is 1",
+                           "an entry that has options but no -p gets strip level %s" % [d_[1] for d_ in consts], f.where(s), ok_detail="unwrap_or(1)")
     ck.floor("C16-R6", "SeriesPatch constructions from parsed options", n_opt, 1)
     # blank / comment lines are skipped before anything else
     top = [f for f in closures + [rs] if calls_named(f, "<impl str>::split_whitespace")]
